@@ -159,3 +159,128 @@ def verify_dest(raw, t, dest):
             return open(path, "rb").read()
         return None
     return refspec.ref_verify(meta, read, B), wrong
+
+
+# ----------------------------------------------------------------------------- model tie
+
+def _norm(p):
+    return "/" + "/".join(c for c in str(p).split("/") if c)
+
+
+def _hx(s):
+    if isinstance(s, str):
+        s = s.encode("utf8")
+    return bytes(s).hex() or "-"
+
+
+def fs_tokens(root):
+    """Every directory and file under `root` (plus root's ancestors as directories)."""
+    ents = []
+    p = root
+    while p != "/":
+        p = os.path.dirname(p)
+        ents.append((p, None))
+    for dp, _, fn in os.walk(root):
+        ents.append((dp, None))
+        for f in fn:
+            with open(os.path.join(dp, f), "rb") as fd:
+                ents.append((os.path.join(dp, f), fd.read()))
+    toks = [str(len(ents))]
+    for path, content in ents:
+        toks.append(_hx(path))
+        toks.append("d" if content is None else "h" + (content.hex() or "-"))
+    return " ".join(toks)
+
+
+def files_tokens(meta):
+    toks = [str(len(meta.files))]
+    for f in meta.files:
+        root = f.get("root")
+        toks += [_hx(str(f["full"])), _hx(f["filename"]),
+                 ("p" if f.get("pad") else "") + str(f["length"]),
+                 _hx(root) if root is not None else "none"]
+    return " ".join(toks)
+
+
+def filemap_tokens(fm):
+    toks = [str(len(fm))]
+    for k, v in fm.items():
+        toks += [_hx(k), str(len(v))]
+        for p, s in v:
+            toks += [_hx(os.path.abspath(p)), str(s)]
+    return " ".join(toks)
+
+
+def rebuild_with_model(box, metafiles, sdirs, dest, drv, case):
+    """Run Assembler metafile by metafile; for each, queue the Lean rebuild model (matchv1 /
+    matchv2) on the same file records, filemap and filesystem, to be compared with the
+    audit-hook trace (mkdir / copy operations, their targets) and the counter.
+    Returns (total count, raised exception name or None)."""
+    from harness import effects
+    from harness.common import quiet, use_repo
+    use_repo()
+    from torrentfile.rebuild import Assembler
+    with quiet():
+        asm = Assembler(list(metafiles), list(sdirs), dest)
+    raised = None
+    for meta in asm.metafiles:
+        ds = os.path.getsize(box)
+        fstok = fs_tokens(box)
+        before = asm.counter
+        exc = None
+        with effects.traced() as tr:
+            try:
+                with quiet():
+                    asm.rebuild(meta)
+            except Exception as err:  # noqa
+                exc = type(err).__name__
+                raised = raised or exc
+        real, realw = [], []
+        for ev in tr.events:
+            if ev[0] == "mkdir":
+                real.append("m:" + _hx(_norm(ev[1])))
+                realw.append(_hx(_norm(ev[1])))
+            elif ev[0] == "copyfile":
+                real.append("c:" + _hx(_norm(ev[1])))
+                realw.append(_hx(_norm(ev[2])))
+        if meta.meta_version == 2:
+            req = "matchv2 %d %s %d %s %s %s" % (ds, _hx(os.path.abspath(dest)), meta.piece_length,
+                                                 files_tokens(meta), filemap_tokens(asm.filemap), fstok)
+        else:
+            req = "matchv1 %d %s %d %s %s %s %s" % (ds, _hx(os.path.abspath(dest)), meta.piece_length,
+                                                    _hx(meta.pieces), files_tokens(meta),
+                                                    filemap_tokens(asm.filemap), fstok)
+        drv.ask(req, ("match", dict(case, metafile=os.path.basename(meta.path)),
+                      (asm.counter - before, real, realw, exc)))
+    return asm.counter, raised
+
+
+def settle_match(run, answers):
+    from harness.common import MachineryError
+    rest = []
+    for slot, req, out in answers:
+        if not (isinstance(slot, tuple) and slot and slot[0] == "match"):
+            rest.append((slot, req, out))
+            continue
+        _, case, (count, real, realw, exc) = slot
+        if out.startswith("ERR"):
+            raise MachineryError(f"driver: {req[:60]} -> {out[:120]}")
+        run.model_checked += 1
+        cnt, ops, _counted, writes = out.split(" ")
+        ops = [] if ops == "-" else ops.split(";")
+        writes = [] if writes == "-" else writes.split(";")
+        mops = [":".join(o.split(":")[:2]) for o in ops]
+        if exc is None:
+            ok = str(count) == cnt and mops == real and writes == realw
+        else:
+            k = len(real)
+            ok = (mops[:k] == real and writes[:k] == realw) or \
+                (mops[:k - 1] == real[:k - 1] and writes[:k - 1] == realw[:k - 1])
+        if not ok:
+            dec = lambda t: bytes.fromhex(t.split(":")[1]).decode("utf8", "replace") if ":" in t else t
+            run.fail("impl-vs-model", case,
+                     {"correspondence": "Impl.matchV1/matchV2 (operation trace, counter)",
+                      "model_count": cnt, "impl_count": count, "raised": exc,
+                      "model_ops": [o[:2] + dec(o) for o in mops][:8],
+                      "impl_ops": [o[:2] + dec(o) for o in real][:8]})
+    return rest
